@@ -635,7 +635,10 @@ func (c *handlerCtx) handleReply() {
 		c.callCmd.mu.Unlock()
 	}()
 	if c.callCmd.stat.OK() {
-		stat := c.input.Status()
+		stat := c.stat // not OK if the reply could not be read or its body not decoded
+		if stat.OK() {
+			stat = c.input.Status()
+		}
 		if stat.OK() {
 			stat = c.pluginContainer.postReadReplyBody(c)
 		}
